@@ -152,6 +152,7 @@ class Engine:
         self.opaque = [re.compile(o) for o in opaque]
         self.assert_fork = assert_fork
         self.inline_filter = inline_filter
+        self.discr_adt = {}      # key of a discr(X) term -> path of X's enum
         self.extra_summaries = summaries or []
         self.max_steps = max_steps
         self.steps = 0
@@ -307,7 +308,14 @@ class Engine:
                             if ov not in ex:
                                 branches.append((ov, t['otherwise']))
                     else:
-                        branches.append((('ne', frozenset(vals) | ex), t['otherwise']))
+                        rest = frozenset(vals) | ex
+                        ov = ('ne', rest)
+                        dvs = self._discr_values(self.discr_adt.get(ak, '')) if atom[:2] == ('term', 'discr') else None
+                        if dvs is not None and rest <= dvs and len(dvs - rest) == 1:
+                            # "none of the listed variants" of an enum with one variant left IS that variant: `if let Some(x) = o … else`
+                            # and `match o { None => .., Some(x) => .. }` record the same decision
+                            ov = next(iter(dvs - rest))
+                        branches.append((ov, t['otherwise']))
                     # the otherwise edge of an enum discriminant switch with all variants listed is unreachable
                     branches = [(v, tg) for (v, tg) in branches
                                 if fn['blocks'][tg]['term']['k'] != 'unreachable' or fn['blocks'][tg]['stmts']]
@@ -649,10 +657,24 @@ class Engine:
             if v[0] == 'ref':
                 return self.discr(self.load(v[1], v[2], s), adt, s)
         t = ('term', 'discr', [v])
+        if adt:
+            self.discr_adt[key(t)] = adt
         f = s.facts.get(key(t))
         if isinstance(f, int):
             return C(f)
         return t
+
+    def _discr_values(self, adt):
+        """the discriminant values of an enum, or None if unknown"""
+        if adt in ('core::option::Option', 'core::result::Result') or adt.startswith(('core::option::Option<', 'core::result::Result<')):
+            return {0, 1}
+        a = self.p.adts.get(adt)
+        if a and a.get('enum'):
+            try:
+                return {int(v_['discr']) for v_ in a['variants']}
+            except (KeyError, ValueError, TypeError):
+                return None
+        return None
 
     def rvalue(self, rv, fn, fid, s):
         k = rv['k']
@@ -850,6 +872,24 @@ class Engine:
             r_ = dv(0)
             if isinstance(r_, tuple) and r_[0] == 'adt' and r_[1].endswith('RangeInclusive') and len(r_[4]) >= 2:
                 return one(('term', 'in_range', [self.purify(dv(1), s), r_[4][0], r_[4][1]]))
+        if c in ('core::net::ip_addr::IpAddr::is_ipv4', 'core::net::ip_addr::IpAddr::is_ipv6') and args:
+            # the same decision a `match addr { V4(_) => .., V6(_) => .. }` records: discr(addr) = 0 | 1
+            v_ = self.purify(dv(0), s)
+            want6 = c.endswith('is_ipv6')
+            if isinstance(v_, tuple) and v_[0] == 'adt':
+                return one(C(int((v_[2] == 1) == want6)))
+            atom = ('term', 'discr', [v_])
+            f_ = s.facts.get(key(atom))
+            outs_ = []
+            for var in (1, 0):
+                if isinstance(f_, int) and f_ != var:
+                    continue
+                s2 = s.fork() if (var == 1 and not isinstance(f_, int)) else s
+                if not isinstance(f_, int):
+                    s2.facts[key(atom)] = var
+                    s2.decisions.append((atom, var, (fn['path'], t['sp']['line'])))
+                outs_.append((C(int((var == 1) == want6)), s2))
+            return outs_
         if c in ('core::mem::take', 'core::mem::replace') and args and isinstance(args[0], tuple) and args[0][0] == 'ref':
             # mem::take(&mut place) / mem::replace(&mut place, v): returns the old value and WRITES the default / v into the place
             root_, proj_ = args[0][1], tuple(args[0][2])
